@@ -322,16 +322,15 @@ if not getattr(_Ex.seq_comprehension, "_c09_shim", False):
     _orig_seq_comprehension = _Ex.seq_comprehension
 
     def _seq_comprehension(self, node, g, info, st):
-        rv = _orig_seq_comprehension(self, node, g, info, st)
-        if not g.ifs or not getattr(self.c, "comp_positions", False) or rv.is_py or not isinstance(rv.ty, T.List):
-            return rv
-        # re-evaluate filter and element at a symbolic source position (no new obligations: spec mode)
+        if not g.ifs or not getattr(self.c, "comp_positions", False):
+            return _orig_seq_comprehension(self, node, g, info, st)
+        # same evaluation of filter and element as the engine's own code ...
+        from pyvc.core import coerce as _coerce
+
         sub = st.copy()
-        i = z3.Int(_fresh_name("pi"))
+        i = z3.Int(_fresh_name("ci"))
         guard = z3.And(i >= 0, i < info.n)
         self.bind_target(g.target, info.item(i), sub, node)
-        save = self.spec_mode
-        self.spec_mode = True
         self.qstack.append(([i], guard))
         if hasattr(self, "qouter"):
             self.qouter.append(st)
@@ -349,11 +348,11 @@ if not getattr(_Ex.seq_comprehension, "_c09_shim", False):
             if hasattr(self, "qouter"):
                 self.qouter.pop()
             self.qnames.pop()
-            self.spec_mode = save
-        from pyvc.core import coerce as _coerce
-
-        body = _coerce(body, rv.ty.elem)
-        r = rv.term
+        et = body.ty
+        if et is PYOBJ or body.is_py:
+            return _orig_seq_comprehension(self, node, g, info, st)
+        # ... but the result is characterised by the two position maps ALONE (they imply the engine's membership facts)
+        r = fresh(List(et), "comp")
         passing = z3.And(guard, *conds)
         posf = fresh(Map(INT, INT), "cpos")
         srcf = fresh(Map(INT, INT), "csrc")
@@ -361,6 +360,7 @@ if not getattr(_Ex.seq_comprehension, "_c09_shim", False):
         src = lambda x: z3.Select(srcf, x)  # noqa: E731
         j = z3.Int(_fresh_name("pj"))
         i2 = z3.Int(_fresh_name("pi2"))
+        st.assume(z3.Length(r) <= info.n)
         st.assume(z3.ForAll([i], z3.Implies(passing, z3.And(pos(i) >= 0, pos(i) < z3.Length(r), r[pos(i)] == lift(body), src(pos(i)) == i))))
         inr = z3.And(j >= 0, j < z3.Length(r))
         st.assume(z3.ForAll([j], z3.Implies(inr, z3.And(z3.substitute(passing, (i, src(j))), r[j] == z3.substitute(lift(body), (i, src(j))), pos(src(j)) == j))))
@@ -370,7 +370,7 @@ if not getattr(_Ex.seq_comprehension, "_c09_shim", False):
         if tgt:
             st.env[tgt + "__pos"] = Val(Map(INT, INT), posf)
             st.env[tgt + "__src"] = Val(Map(INT, INT), srcf)
-        return rv
+        return Val(List(et), r)
 
     _seq_comprehension._c09_shim = True
     _Ex.seq_comprehension = _seq_comprehension
@@ -432,7 +432,7 @@ GSL = List(Ref("SXGlyphSet"))
 @specfn(BOOL, GS=GSL, HG=HG_T, HC=HC_T, g=STR, i=INT)
 def comp_index_everywhere(GS, HG, HC, g, i):
     """i is a component index of glyph g in EVERY master that has g (the code only looks at indices below the smallest component count)"""
-    return i >= 0 and all(implies(g in HG[gs], i < len(HC[HG[gs][g]])) for gs in GS)
+    return i >= 0 and all((g not in HG[gs]) or i < len(HC[HG[gs][g]]) for gs in GS)  # (`or`, not implies(): evaluated lazily at run time too)
 
 
 # The next two are written with a (never taken) recursive call so that the engine treats them as NAMED predicates: an application under a
@@ -482,16 +482,10 @@ contract(
     # stepping stones (each is proved where it stands, then used): they tie the named predicates, applied to the glyph at hand, to the
     # lists the code builds
     hints={
-        # the code's test at one component index is the specification's "two masters disagree on the 2x2 there"
-        "transforms = [layer.components[component_index].transformation[0:4] for layer in layers]": [
-            # (position k of `layers` / `transforms` belongs to master layers__src[k]; master a, if it has the glyph, sits at position layers__pos[a])
-            f"all(0 <= layers__src[k] and layers__src[k] < len({_PGS}) and glyph in {_PGS}[layers__src[k]].keyset"
-            f" and transforms[k] == {_PGS}[layers__src[k]][glyph].components[component_index].transformation[0:4] for k in range(len(transforms)))",
-            f"all(implies(glyph in {_PGS}[a].keyset, 0 <= layers__pos[a] and layers__pos[a] < len(transforms)"
-            f" and transforms[layers__pos[a]] == {_PGS}[a][glyph].components[component_index].transformation[0:4]) for a in range(len({_PGS})))",
-            f"implies(any(transforms[k] != transforms[0] for k in range(len(transforms))), {_DIFF.format('glyph', 'component_index')})",
-            f"implies({_DIFF.format('glyph', 'component_index')}, any(transforms[k] != transforms[0] for k in range(len(transforms))))",
-        ],
+        # the code's test at one component index is the specification's "two masters disagree on the 2x2 there" (attached to the statements
+        # AFTER the comparison list is built, so that an edit of that list shows up as a failed obligation, not as a contract misfit)
+        "needs_decomposition.add(glyph)": [_DIFF.format("glyph", "component_index")],
+        "if any((transform != transforms[0] for transform in transforms)):": [f"not {_DIFF.format('glyph', 'component_index')}"],
         # no master has a component: nothing can differ
         "component_counts = [len(layer.components) for layer in layers]": [
             f"implies(all(component_counts[k] == 0 for k in range(len(component_counts))), not {_NM.format('glyph')})"
@@ -521,3 +515,52 @@ contract(
     },
 )
 CONTRACTS["ufo2ft.preProcessor:TTFInterpolatablePreProcessor.check_for_nonmatching_components"].comp_positions = True
+
+
+def _nm_cases(rng, n):
+    """2-4 masters; three composites whose component tables differ from master to master in ONE entry of ONE component (offset, xx, xy,
+    yx, yy) or not at all, sometimes with a different NUMBER of components in one master, sometimes missing from the last master"""
+    out = []
+    for _ in range(n):
+        nm = rng.randint(2, 4)
+        comps = {}
+        for g in ("comp0", "comp1", "comp2"):
+            base = [[rng.choice([1, 0.5, -1]), rng.choice([0, 0.25]), rng.choice([0, -0.125]), rng.choice([1, 0.75, 2]), 10, 20] for _ in range(rng.randint(1, 3))]
+            kind = rng.choice(["same", "offset", "xx", "xy", "yx", "yy"])
+            mk, ck = rng.randrange(nm), rng.randrange(len(base))
+            per_master = []
+            for k in range(nm):
+                trs = [list(t) for t in base]
+                if k == mk and kind != "same":
+                    trs[ck][{"offset": 4, "xx": 0, "xy": 1, "yx": 2, "yy": 3}[kind]] += 0.125
+                per_master.append(trs)
+            if rng.random() < 0.25:  # one master has fewer components: only the shared indices count
+                k = rng.randrange(nm)
+                per_master[k] = per_master[k][: rng.randint(0, len(base) - 1)] if len(base) > 1 else []
+            comps[g] = per_master
+        out.append({"masters": nm, "components": comps, "drop_last": rng.random() < 0.3 and nm > 2, "pre": sorted(rng.sample(["comp0", "comp1", "comp2", "plain", "ghost"], rng.randint(0, 2)))})
+    return out
+
+
+def _nm_build(d):
+    import ufoLib2
+
+    from ufo2ft.preProcessor import TTFInterpolatablePreProcessor
+
+    ufos = []
+    for k in range(d["masters"]):
+        u = ufoLib2.Font()
+        for name in ("base", "plain"):
+            pen = u.newGlyph(name).getPen()
+            pen.moveTo((0, 0)); pen.lineTo((100, 0)); pen.lineTo((100, 100 + k)); pen.closePath()  # noqa: E702
+        for g, per_master in d["components"].items():
+            if d["drop_last"] and g == "comp2" and k == d["masters"] - 1:
+                continue
+            gl = u.newGlyph(g)
+            for tr in per_master[k]:
+                gl.getPen().addComponent("base", tuple(tr))
+        ufos.append(u)
+    return {"self": TTFInterpolatablePreProcessor(ufos), "needs_decomposition": set(d["pre"])}
+
+
+CONTRACTS["ufo2ft.preProcessor:TTFInterpolatablePreProcessor.check_for_nonmatching_components"].runtime = Runtime(_nm_cases, _nm_build)
